@@ -827,7 +827,8 @@ func (s *State) extendFunctionEnv(
 		params = params[:n]
 		// Expending the last argument expecting it to be "..", but any other array will do too.
 		if len(args) > 0 && args[len(args)-1].Type() == object.ARRAY {
-			args = append(args[:len(args)-1], object.Elements(args[len(args)-1])...)
+			// (on a copy: the caller still uses its args, as the key under which the result is remembered.)
+			args = append(slices.Clone(args[:len(args)-1]), object.Elements(args[len(args)-1])...)
 		}
 		if len(args) >= n {
 			extra = args[n:]
